@@ -297,6 +297,52 @@ fn rule_system_job(ctx: &Ctx, job: usize, iters: u64) -> Stats {
     st
 }
 
+/// LARGE propositional bodies in a nest whose inner binder name is ALSO a free variable of the
+/// whole formula, its value reaching the inner body through the outer variable:
+/// `mu Y # (X & p) | Q p # (nu X # Y & C1 & .. & Ck)` with 8-20 clauses (40-120 syntax nodes), every
+/// occurrence of X and Y positive (monotone). Lexical scoping: the inner X is not the free X.
+fn large_body_job(ctx: &Ctx, job: usize, iters: u64) -> Stats {
+    let mut st = Stats::new();
+    let mut rng = Rng::stream(ctx.seed, "C06.largebody", job as u64);
+    for _ in 0..iters {
+        let lit = |rng: &mut Rng| -> String {
+            match rng.below(8) {
+                0 | 1 => "X".into(),
+                2 | 3 => "Y".into(),
+                4 => "p".into(),
+                5 => "-p".into(),
+                6 => "q".into(),
+                _ => "-q".into(),
+            }
+        };
+        let k = 8 + rng.usize(13);
+        let clauses: Vec<String> = (0..k)
+            .map(|_| match rng.below(3) {
+                0 => format!("({} | {} | {})", lit(&mut rng), lit(&mut rng), lit(&mut rng)),
+                1 => format!("(({} & {}) | {})", lit(&mut rng), lit(&mut rng), lit(&mut rng)),
+                _ => format!("({} | ({} & ({} | {})))", lit(&mut rng), lit(&mut rng), lit(&mut rng), lit(&mut rng)),
+            })
+            .collect();
+        let (outer, inner, glue) = match rng.below(4) {
+            0 => ("mu", "nu", "&"),
+            1 => ("lfp", "lfp", "|"),
+            2 => ("gfp", "nu", "&"),
+            _ => ("nu", "mu", "|"),
+        };
+        let body = clauses.join(if glue == "&" { " & " } else { " | " });
+        let text = match rng.below(4) {
+            0 => format!("{} Y # (X & p) | ({} X # Y {} {})", outer, inner, glue, body),
+            1 => format!("{} Y # (X & p) | (exists p # {} X # Y {} {})", outer, inner, glue, body),
+            2 => format!("{} Y # (X | q) & ({} X # (Y | p) {} {})", outer, inner, glue, body),
+            _ => format!("{} Y # X | ({} X # {} {} Y)", outer, inner, body, glue),
+        };
+        if check_fix_text(&mut st, &text, "large-propositional-inner-body") {
+            st.bump("large_inner_bodies_under_a_reused_name");
+        }
+    }
+    st
+}
+
 fn exhaustive_job(job: usize, jobs: usize) -> Stats {
     // every tree with <= 2 operator nodes over {a, b} as the body of lfp/gfp a (only monotone ones are judged)
     let mut st = Stats::new();
@@ -493,6 +539,7 @@ pub fn run(ctx: &Ctx) -> (Stats, Spec) {
     let parts = util::par_jobs(16, |job| {
         let mut s = language_job(ctx, job, iters);
         s.merge(rule_system_job(ctx, job, iters / 20));
+        s.merge(large_body_job(ctx, job, iters / 40));
         s.merge(api_job(ctx, job, api));
         s
     });
@@ -523,7 +570,7 @@ pub fn run(ctx: &Ctx) -> (Stats, Spec) {
         }
     }
     let spec = Spec {
-        rule: "bodies from a polarity-tracking generator (X under and/or/ite branches/quantifiers/at-least counting/left list of >=/even negation; nested and mixed lfp/gfp up to depth 3; inner binders and quantifiers reusing the outer name; aliases mu/nu), RULE SYSTEMS (facts = the assignments of 2-3 variables, each derived from a conjunction of one to three earlier facts read off X through exists / forall — monotone bodies that do not distribute over union; duals for gfp), every small tree as body, README identities, the least and the greatest fixed point of ONE body (same bound name) side by side in one formula, LONG chains (the fixed point of a walk through all 2^n assignments of 3-4 [quick] / 2-5 [thorough] variables, one per round, and its dual; and chains of 253 [quick] / 253, 509, 1021 [thorough] rounds over 8-10 variables whose fixed point is known by construction). For each: ALL functions over the other names (<= 3 names: 256 candidates; 4 names: 4096 sampled) are enumerated as competing (pre/post-)fixed points; the generated body's monotonicity is verified on all comparable pairs. API: fp(a, t) with random table-defined maps on the 16 functions of two variables whose orbit ends in a self-loop; the closure counts its applications and calls back into the environment; a quarter of the calls run in an environment whose symbol type has a constant Hash (every pair of same-shape diagrams collides), so that `mapped to itself` cannot be confused with `same hash`. distinct = text resp. (map, start); non-trivial = X occurs free, T depends on X and T has >= 2 fixed points.".into(),
+        rule: "bodies from a polarity-tracking generator (X under and/or/ite branches/quantifiers/at-least counting/left list of >=/even negation; nested and mixed lfp/gfp up to depth 3; inner binders and quantifiers reusing the outer name; aliases mu/nu), RULE SYSTEMS (facts = the assignments of 2-3 variables, each derived from a conjunction of one to three earlier facts read off X through exists / forall — monotone bodies that do not distribute over union; duals for gfp), nests with a LARGE propositional inner body (8-20 clauses, 40-120 syntax nodes) whose binder name is also a free variable of the formula, every small tree as body, README identities, the least and the greatest fixed point of ONE body (same bound name) side by side in one formula, LONG chains (the fixed point of a walk through all 2^n assignments of 3-4 [quick] / 2-5 [thorough] variables, one per round, and its dual; and chains of 253 [quick] / 253, 509, 1021 [thorough] rounds over 8-10 variables whose fixed point is known by construction). For each: ALL functions over the other names (<= 3 names: 256 candidates; 4 names: 4096 sampled) are enumerated as competing (pre/post-)fixed points; the generated body's monotonicity is verified on all comparable pairs. API: fp(a, t) with random table-defined maps on the 16 functions of two variables whose orbit ends in a self-loop; the closure counts its applications and calls back into the environment; a quarter of the calls run in an environment whose symbol type has a constant Hash (every pair of same-shape diagrams collides), so that `mapped to itself` cannot be confused with `same hash`. distinct = text resp. (map, start); non-trivial = X occurs free, T depends on X and T has >= 2 fixed points.".into(),
         assumptions: vec![
             "non-monotone or non-convergent bodies are never handed to the engine (it may legitimately loop; the README says so)".into(),
             "'evaluation terminates' is decided as: total fixed-point iterations <= 4 x the reference's count + 64 (a monotone chain cannot be longer than the lattice height)".into(),
@@ -536,6 +583,7 @@ pub fn run(ctx: &Ctx) -> (Stats, Spec) {
             ("inner_binder_reuses_outer_name".into(), 20, "shadowing by an inner fixed point never exercised".into()),
             ("fp_api_calls".into(), 1_000, "fp API never exercised".into()),
             ("long_chain_fixed_points".into(), 4, "long iteration chains never exercised".into()),
+            ("large_inner_bodies_under_a_reused_name".into(), 500, "large propositional inner bodies never exercised".into()),
             ("rule_system_bodies".into(), 1_000, "rule-system bodies (monotone, not distributive) never exercised".into()),
             ("very_long_chain_fixed_points".into(), 2, "iteration chains of hundreds of rounds never exercised".into()),
             ("least_and_greatest_of_one_body".into(), 100, "lfp and gfp of one body side by side never exercised".into()),
